@@ -110,11 +110,16 @@ _DUMMY = {"lr_a": 0.123, "lr_b": 0.077, "tc_a": 3.0, "tc_b": 4.0, "lr_a3": 0.05,
           "tc_elig": 5.0, "trace_mode": "cumulative", "delayed": False}
 
 
-def build_trainer(name, hyper, batch_reduction, per_cell=False):
+def build_trainer(name, hyper, batch_reduction, per_cell=False, default_reduction=torch.mean):
     """per_cell=True: the trainer is constructed with unrelated defaults; the real hyper-parameters are meant to be passed
     to register_cell (documented: constructor arguments can be overridden on a cell-by-cell basis)"""
     kw = trainer_args(name, _DUMMY if per_cell else hyper)
-    return trainer_class(name)(**kw, batch_reduction=(torch.mean if per_cell else batch_reduction))
+    return trainer_class(name)(**kw, batch_reduction=(default_reduction if per_cell else batch_reduction))
+
+
+def none_reduction(name):
+    """what a per-cell batch_reduction=None is documented to mean: torch.sum for the reward-modulated rules, torch.mean elsewhere"""
+    return torch.sum if name in THREE_FACTOR else torch.mean
 
 
 class Harness:
@@ -136,14 +141,19 @@ class Harness:
         self.neuron = ExactNeuron(self.conn.outshape, dt, rest_v=-60.0, thresh_v=-50.0, batch_size=B)
         self.layer = neural.Serial(self.conn, self.neuron)
         self.conn.updater = self.conn.defaultupdater()
-        self.trainer = build_trainer(trainer, self.hyper, batch_reduction, per_cell=per_cell)
+        # a cell registered with batch_reduction=None gets the documented fallback of its trainer class - not the trainer's own
+        # configured reduction (here: amax)
+        self.cell_reduction_none = bool(per_cell) and batch_reduction is none_reduction(trainer)
+        self.trainer = build_trainer(trainer, self.hyper, batch_reduction, per_cell=per_cell,
+                                     default_reduction=(torch.amax if self.cell_reduction_none else torch.mean))
         if online:
             # online learning: the trainer is stepped from a forward hook of the layer that was there BEFORE the cell was
             # registered; the trainers register their monitors with prepend=True so that they have recorded the step by then
             self._next = (None, 1.0)
             self.layer.register_forward_hook(lambda m, a, o: self._call_trainer(*self._next))
         if per_cell:
-            self.trainer.register_cell("c", self.layer.cell, batch_reduction=batch_reduction, **trainer_args(trainer, self.hyper))
+            self.trainer.register_cell("c", self.layer.cell, batch_reduction=(None if self.cell_reduction_none else batch_reduction),
+                                       **trainer_args(trainer, self.hyper))
         else:
             self.trainer.register_cell("c", self.layer.cell)
         if dtype is not None:
